@@ -1,0 +1,63 @@
+//go:build verif
+
+// Contracts for package rapidproto, read by the verifier in /verif (govc). Comments only.
+// Trusted (rapid): a value drawn from XRange(lo, hi) lies in [lo, hi]; rapid.String() yields valid UTF-8;
+// a failed assert.* aborts the run. protoreflect.Message operations are protobuf-go's (or the generated
+// code's, see C08).
+
+package rapidproto
+
+//@ func setSecondsNanosFields
+//@   property C18
+//@   mode math
+//@   no-safety
+//@   note the common valid range of google.protobuf.Timestamp and Duration with non-negative parts (CheckValid)
+//@   requires[valid-seconds] -62135596800 <= seconds && seconds <= 253402300799
+//@   requires[valid-nanos] 0 <= nanos && nanos <= 999999999
+
+//@ func GeneratorOptions.genTimestamp
+//@   property C18
+//@   mode math
+//@   no-safety
+
+//@ func GeneratorOptions.genDuration
+//@   property C18
+//@   mode math
+//@   no-safety
+
+//@ func GeneratorOptions.setFields
+//@   property C18
+//@   mode math
+//@   no-safety
+//@   requires[depth] 0 <= depth && depth <= 12
+//@   decreases 13 - depth rank 2
+//@   loop 1: invariant 0 <= i
+//@   loop 1: decreases n - i
+
+//@ func GeneratorOptions.setFieldValue
+//@   property C18
+//@   mode math
+//@   no-safety
+//@   requires[depth] 0 <= depth && depth <= 10
+//@   decreases 13 - depth rank 1
+//@   loop 1: invariant 0 <= i
+//@   loop 1: decreases n - i
+//@   loop 2: invariant 0 <= i
+//@   loop 2: decreases n - i
+
+//@ func GeneratorOptions.genAny
+//@   property C18
+//@   mode math
+//@   no-safety
+//@   requires[depth] 0 <= depth && depth <= 11
+//@   decreases 13 - depth rank 1
+
+//@ func GeneratorOptions.genScalarFieldValue
+//@   property C18
+//@   mode math
+//@   no-safety
+
+//@ func GeneratorOptions.genFieldMask
+//@   property C18
+//@   mode math
+//@   no-safety
